@@ -36,9 +36,9 @@ VARPOS = ["required_keys", "allowed_keys", "forbidden_keys", "keys_contain_any_o
 VARKW = ["items_contain"]
 
 
-def ref_path(r, doc):
+def ref_path(r, doc, jsonable=False):
     """A document-guided reference path with modifiers that are defined on the document."""
-    p = G.guided_path(r, doc, max_len=3, min_len=1, miss=20, mode="typed", prim_only=r.coin(60), meaningful=True)
+    p = G.guided_path(r, doc, max_len=3, min_len=1, miss=20, mode="typed", prim_only=r.coin(60), meaningful=True, jsonable=jsonable)
     sel = model.ref_select(p.parts, doc)
     conc = model.is_concrete(p.parts)
     if sel and r.coin(40):
@@ -76,27 +76,30 @@ def same_base_leaves(r, doc):
     return Leaf("value", None, r.choice(["required_keys", "keys_contain_any_of"]), args=(variant(), variant()))
 
 
-def gen_leaf_with_paths(r, doc):
+def gen_leaf_with_paths(r, doc, jsonable=False):
+    _rp = ref_path
+    def ref_path_(r_, d_):
+        return _rp(r_, d_, jsonable)
     c = r.pct()
     if c < 50:
         name = r.choice(SINGLE)
-        return Leaf("value", None, name, kwargs={("key" if name == "keys_contain" else "value"): ref_path(r, doc)})
+        return Leaf("value", None, name, kwargs={("key" if name == "keys_contain" else "value"): ref_path_(r, doc)})
     if c < 70:
         name = r.choice(MULTI)
         leaf = G.leaf_of_shape(r, ("value", None, name), "typed")
         kw = dict(leaf.kwargs)
         for k in r.subset(list(kw), 1, 2):
-            kw[k] = ref_path(r, doc)
+            kw[k] = ref_path_(r, doc)
         return leaf.replace(kwargs=kw)
     if c < 88:
         name = r.choice(VARPOS)
         args = [G.key(r) for _ in range(r.between(1, 3))]
         for i in r.subset(list(range(len(args))), 1, 2):
-            args[i] = ref_path(r, doc)
+            args[i] = ref_path_(r, doc)
         return Leaf("value", None, name, args=tuple(args))
     kw = {k: G.scalar(r) for k in r.subset(["a", "b", "c", "abc"], 1, 3)}
     for k in r.subset(list(kw), 1, 2):
-        kw[k] = ref_path(r, doc)
+        kw[k] = ref_path_(r, doc)
     return Leaf("value", None, "items_contain", kwargs=kw)
 
 
